@@ -417,6 +417,8 @@ def sense(prog, run):
         for c in sorted(exp):
             ok = c in found
             near = [x for x in found if x[0] == c[0] and x[2] == c[2]]
+            if not ok and not any(x[2] == c[2] or x[0] == c[2] for x in found):
+                ok = None           # no comparison with that threshold in a form we read: the criterion may be written another way
             run.ob("R-sense", fi.qual, f"{c[0].split(':')[1]} {c[1]} {c[2].split(':')[1]}", ok,
                    "keep-condition present" if ok else f"expected keep-condition {c} not found; conditions on thresholds in this function: {sorted(found)}",
                    witness=str(sorted(near) or sorted(found)), file=f, node=nodes.get(c, fi.node))
